@@ -143,6 +143,7 @@ type (
 	// Changes to validator
 	validatorCreateChange struct {
 		address *common.Address
+		prev    *Validator // the removed-but-not-yet-finalised record this creation replaced, if any
 	}
 	validatorUpdateChange struct {
 		address *common.Address
@@ -165,6 +166,10 @@ type (
 func (ch validatorCreateChange) revert(s *StateDB) {
 	val, _ := s.validatorObjects.Load(*ch.address)
 	s.decrValidatorsStat(val.(*Validator))
+	if ch.prev != nil {
+		s.validatorObjects.Store(*ch.address, ch.prev)
+		return
+	}
 	s.validatorObjects.Delete(*ch.address)
 	s.validatorIndex.Delete(*ch.address)
 }
